@@ -179,7 +179,7 @@ Definition fixed_all : variant :=
 
 (* THE variant the correspondence run compares /repo with.  Switch to [fixed_map] after repairing
    PyNativeExec.map (pack by number of iterables). *)
-Definition model_variant : variant := pinned.
+Definition model_variant : variant := fixed_all.
 
 (* ------------------------------------------------------------------ PyNativeExec.submit *)
 Definition exec_submit_gen (q : variant) (be : backend) (f : fn) (args : list arg) (kw : kwargs)
